@@ -83,10 +83,10 @@ CLAIMED = {
            "A sort removed, a new unsorted range, or an edited hand-classified loop makes the obligation fail; the search is the differential: every command (generate model/server/client/cli/markdown, flatten, "
            "expand, mixin, diff text/json, generate spec on two scanner fixtures) is run N times in fresh processes on a spec with 9-12 entries in every map and the outputs are compared byte for byte. "
            "Four order-sensitive loops found this way were repaired (fix: commits); the order-dependent visited-key bookkeeping of the diff analyser is a known finding. "
-           "Not covered by a theorem: data races of concurrent library calls (runtime behaviour)."),
+           "Schedules are not covered by a theorem (runtime behaviour): six concurrent generations in one process under the race detector are compared with the sequential run."),
   "note": ("Trusted: Lean kernel + audited axioms; the census translator (go/packages + go/types, classification rules in harness/internal/census - a wrong rule is caught only by the differential); "
            "the CLI built from the working tree; sha256 tree comparison. Modelled rather than verified: loop bodies are classified, not translated; purity of functions called inside a loop is assumed "
-           "by the rules and validated by the differential. Concurrency (schedules): not modelled."),
+           "by the rules and validated by the differential. Concurrency (schedules): exercised with -race, not modelled; option parsing of the generate commands is serialised in that run."),
  },
  "C08": {
   "technique": "Lean 4 proof (invariant over the registration loop of gatherOperations for all candidate lists; counterexample theorem) + correspondence through a verif accessor + generation census",
